@@ -79,6 +79,16 @@ def cases():
         for lit in ("int:0", "int:1", "int:5", "int:-1", "int:-3", "int:max", "int:max+1", "int:min", "int:min-1", "Null", "Full", "True", "str"):
             for f in LIT_FORMS:
                 out.append({"src": ["lit", lit], "tgt": list(t), "form": f})
+    # the SOURCE is a typed compile-time constant OBJECT (BitVector[n]("..") / Unsigned[n](v) / Signed[n](v)): the same table as for
+    # run-time sources of that type (two bit patterns: top bit set / clear)
+    for s in T:
+        if s[0] == "Bit":
+            continue
+        pat = int("10" * (s[1] // 2) + "1" * (s[1] % 2), 2)
+        for t in T:
+            for f in ("assign", "var", "push", "init", "element", "ite", "ret", "itefull", "declvar"):
+                for v in sorted({pat, pat >> 1}):
+                    out.append({"src": ["const", s[0], s[1], v], "tgt": list(t), "form": f})
     # two DIFFERENT literals assigned to the same target in the two branches of an if/else (each branch must keep its own)
     for t in T:
         pairs = [("int:1", "int:0"), ("Null", "Full"), ("int:max", "int:1"), ("int:min", "int:max"), ("Full", "int:1"), ("str", "Null")] if t[0] != "Bit" else [("True", "Null"), ("Full", "Null")]
@@ -121,6 +131,8 @@ def expected(c):
         ea = expected({"src": ["lit", s[1]], "tgt": c["tgt"], "form": "assign"})
         eb = expected({"src": ["lit", s[2]], "tgt": c["tgt"], "form": "assign"})
         return "accept" if ea == eb == "accept" else "either"
+    if s[0] == "const":
+        return expected({"src": [s[1], s[2]], "tgt": c["tgt"], "form": f})
     if s[0] == "lit":
         lit = s[1]
         if lit in ("Null", "Full"):
@@ -159,13 +171,22 @@ def preserved(s, t, sv, tv):
     return numeric(s[0], sv, ws) == numeric(t[0], tv, wt)
 
 
+def const_text(s):
+    _, k, w, v = s
+    if k == "BV":
+        return f'BitVector[{w}]("{v:0{w}b}")'
+    if k == "S":
+        return f"Signed[{w}]({v - (1 << w) if v >> (w - 1) else v})"
+    return f"Unsigned[{w}]({v})"
+
+
 def render_src(c):
     s, t, f = tuple(c["src"]), tuple(c["tgt"]), c["form"]
     if s[0] == "lit2":
         return render_two_literals(c)
-    lit = s[0] == "lit"
+    lit = s[0] in ("lit", "const")
     H = ["from __future__ import annotations", "import cohdl", "from cohdl import Bit, BitVector, Unsigned, Signed, Port, Signal, Variable, Null, Full, true, false", "from cohdl import std", ""]
-    src = lit_value(s[1], t)[0] if lit else "self.s"
+    src = const_text(s) if s[0] == "const" else lit_value(s[1], t)[0] if lit else "self.s"
     if f in ("ret", "retfull", "retnull"):
         H += ["def merge(c, a, b):", "    if c:", "        return a", "    return b", ""]
     if f == "port":
@@ -303,7 +324,8 @@ def simulate(c, design, seed, idx):
     s, t, f = tuple(c["src"]), tuple(c["tgt"]), c["form"]
     rs = rng.Stream(seed, "C05", "vals", idx)
     d = dutm.Dut(design, rng.derive(seed, "C05", "order", idx), "c05")
-    lit = s[0] == "lit"
+    const = s[0] == "const"
+    lit = s[0] == "lit" or const
     wt = W(t)
     if lit:
         vals = [None]
@@ -326,7 +348,9 @@ def simulate(c, design, seed, idx):
             return "undefined-target", {"source_value": sv, "raw": d.raw("o")}, checked
         if f == "slice":
             got = (got >> 1) & ((1 << wt) - 1)
-        if lit:
+        if const:
+            ok = preserved((s[1], s[2]), t, s[3], got)
+        elif lit:
             _, v = lit_value(s[1], t)
             if s[1] == "Full":
                 want = (1 << wt) - 1
@@ -340,7 +364,7 @@ def simulate(c, design, seed, idx):
             ok = preserved(s, t, sv, got)
         checked += 1
         if not ok:
-            return "value-not-preserved", {"source_value": sv if not lit else s[1], "target_pattern": got, "source": tstr(s) if not lit else s[1], "target": tstr(t), "form": f}, checked
+            return "value-not-preserved", {"source_value": sv if not lit else (const_text(s) if const else s[1]), "target_pattern": got, "source": tstr(s) if not lit else (const_text(s) if const else s[1]), "target": tstr(t), "form": f}, checked
         d.half()
         if f in ("ite", "ret") or f in MERGE_LIT:
             # the other branch of the merge: the target's own type (t0) or a literal that fills the TARGET's width
@@ -352,7 +376,7 @@ def simulate(c, design, seed, idx):
             want0 = inp["t0"] if f in ("ite", "ret") else ((1 << wt) - 1 if MERGE_LIT[f] == "Full" else 0)
             checked += 1
             if got0 != want0:
-                return "value-not-preserved", {"branch": "else", "other_branch": "t0" if f in ("ite", "ret") else MERGE_LIT[f], "expected_pattern": want0, "target_pattern": got0, "source": tstr(s) if not lit else s[1], "target": tstr(t), "form": f}, checked
+                return "value-not-preserved", {"branch": "else", "other_branch": "t0" if f in ("ite", "ret") else MERGE_LIT[f], "expected_pattern": want0, "target_pattern": got0, "source": tstr(s) if not lit else (const_text(s) if const else s[1]), "target": tstr(t), "form": f}, checked
             d.half()
     pr = d.problems()
     if pr:
@@ -418,6 +442,8 @@ def finding_key(r):
             return "literal " + a[1]
         if a[0] == "lit2":
             return "two literals"
+        if a[0] == "const":
+            return "constant " + cls(a[1:3], b)
         rel = "equal" if W(tuple(a)) == W(tuple(b)) else ("narrower" if W(tuple(a)) < W(tuple(b)) else "wider")
         return f"{a[0]}->{b[0]}:{rel}-source"
 
